@@ -148,7 +148,7 @@ class State:
     def discharge(self, b, blk, t, site):
         kind, what = site
         o = self.o(b)
-        if b.deff in ("variable::slice", "variable::adjust_slice_endpoint"):
+        if b.deff in ("variable::slice", "variable::adjust_slice_endpoint") or b.deff.startswith("variable::slice::{closure#"):
             if kind == "assert":
                 bad = [k for k, ok, _, _ in self.slice_res.items if not ok]
                 return self.slice_ok, ("P-slice: discharged by the reference-tree equivalence and loop-structure proof of the slice routine"
